@@ -5,7 +5,7 @@ from mcx import geom, obs
 
 PID = 'C11'
 CHUNK = 1
-TOLERANCE = 'currents/impedances identical (1e-12); sigma->inf: < 1e-4 dB at 1e12 and monotone from 1e3; split / far boundary: 1e-9 dB'
+TOLERANCE = 'currents/impedances identical (1e-12); sigma->inf: < 1e-3 dB at 1e12 (6.6e-6 dB at 30 MHz, growing with sqrt(f)) and monotone from 1e3; split / far boundary: 1e-9 dB'
 RULE = ('In-domain ground-lattice structures (<=2 wires quick, <=3 thorough; generic and axis-aligned lattice; source on '
         'an interior or grounded pulse, lumped loads on a grounded and on another pulse) x media alphabets: eps {1,4,13,80} x '
         'sigma {1e-4,5e-3,4,1e3,1e6,1e9,1e12}; 1..4 media, linear and circular boundaries with boundary coordinates below / '
@@ -148,7 +148,7 @@ def evaluate(c):
                     continue
                 devs.append(float(np.abs(g[..., 2] - gi[..., 2])[msk].max()))
             if len(devs) == 4:
-                chk('SIGMA-LIMIT', devs[-1], 1e-4, 'eps=%g sigma=1e12: pattern still %.3g dB from ideal ground' % (eps, devs[-1]))
+                chk('SIGMA-LIMIT', devs[-1], 1e-3, 'eps=%g sigma=1e12: pattern still %.3g dB from ideal ground' % (eps, devs[-1]))
                 for a, b in zip(devs[:-1], devs[1:]):
                     chk('SIGMA-MONOTONE', b, a + 1e-12, 'eps=%g: deviation from ideal ground grows with conductivity: %s' % (eps, devs))
         # (3) split and (4) far boundary
